@@ -376,11 +376,16 @@ def gen_shape(n, kinds, joins):
             lines.append('      join: %s' % join[i])
         for kind, key in (('S', 'on-success'), ('E', 'on-error'),
                           ('C', 'on-complete')):
-            tg = [_NAMES[j] for j in range(i + 1, n)
-                  if edges[(i, j)] == kind]
+            tg = []
+            for j in range(i + 1, n):
+                if edges[(i, j)] == kind:
+                    tg.append(_NAMES[j])
+                elif edges[(i, j)] == kind + 'g':
+                    # guarded route: the guard's value is a solver variable
+                    tg.append('{%s: <%% $.g%d%d %%>}' % (_NAMES[j], i, j))
             if tg:
                 lines.append('      %s: [%s]' % (key, ', '.join(tg)))
-    key = ''.join('%s' % edges[(i, j)][0] for j in range(1, n)
+    key = ''.join('%s' % edges[(i, j)][:2].replace('o', '') for j in range(1, n)
                   for i in range(j)) + '/' + ','.join(
         '%s=%s' % (_NAMES[j], v) for j, v in sorted(join.items()))
     return key, '\n'.join(lines) + '\n'
@@ -418,16 +423,19 @@ def gen_case(n, kinds, joins, preemptions, oid='C01.G'):
                'validate_semantics'],
     bounds={'quick': 'EVERY direct workflow over 3 tasks with forward routes: '
                      'for each pair i<j the route is none / on-success / '
-                     'on-error / on-complete (solver choice), a task with >= '
+                     'on-error / on-complete, plain or behind a guard whose '
+                     'value is symbolic (solver choice), a task with >= '
                      '2 inbound routes is a join all / one / 2 (solver '
                      'choice); every action outcome symbolic; delivery '
-                     'order: FIFO with <= 1 out-of-order delivery',
-            'thorough': 'every such workflow over 4 tasks with routes none / '
+                     'order: FIFO with <= 1 out-of-order delivery for the '
+                     'unguarded shapes, FIFO for the guarded ones',
+            'thorough': '3 tasks: guarded shapes too with <= 1 out-of-order '
+                        'delivery; every such workflow over 4 tasks with routes none / '
                         'on-success / on-error and joins all / one; <= 1 '
                         'out-of-order delivery'},
     stubs=['minidb', 'QueueRPC', 'FakeScheduler', 'FakeExecutor',
            'post-commit queue inline', 'jsonschema schema check memoised'],
-    outside='cycles, guards, engine commands, more than 4 tasks, tasks with '
+    outside='cycles, engine commands, more than 4 tasks, tasks with '
             'several executions (a non-join task with two inbound routes '
             'never occurs: it is made a join)',
     timeout=(500, 3000))
@@ -440,12 +448,18 @@ def c01_g(ctx):
         yield Case('3-tasks', gen_case(3, ['none', 'S', 'E', 'C'],
                                        ['all', 'one', 2], 1),
                    needed=['shape-ran', 'shape-with-join', 'quiescent'],
-                   max_paths=2000000, shard_depth=5, procs=14)
-    else:
-        yield Case('3-tasks', gen_case(3, ['none', 'S', 'E', 'C'],
-                                       ['all', 'one', 2], 2),
+                   max_paths=2000000, shard_depth=7, procs=14)
+        yield Case('3-tasks-guards',
+                   gen_case(3, ['none', 'S', 'E', 'C', 'Sg', 'Eg', 'Cg'],
+                            ['all', 'one', 2], 0),
                    needed=['shape-ran', 'shape-with-join', 'quiescent'],
-                   max_paths=2000000, shard_depth=5, procs=14)
+                   max_paths=2000000, shard_depth=8, procs=14)
+    else:
+        yield Case('3-tasks', gen_case(3, ['none', 'S', 'E', 'C', 'Sg',
+                                           'Eg', 'Cg'],
+                                       ['all', 'one', 2], 1),
+                   needed=['shape-ran', 'shape-with-join', 'quiescent'],
+                   max_paths=2000000, shard_depth=8, procs=14)
         yield Case('4-tasks', gen_case(4, ['none', 'S', 'E'],
                                        ['all', 'one'], 1),
                    needed=['shape-ran', 'shape-with-join', 'quiescent'],
